@@ -363,8 +363,9 @@ class RRTRun:
 
         # one planner, one or two calls: the second call (another goal, another budget) re-uses and extends the tree
         phases = [(cfg["iterations"], self.goal)]
-        if cfg.get("second"):
-            phases.append((cfg["second"]["iterations"], tm(list(cfg["second"]["goal"]))))
+        extra = [cfg[k_] for k_ in ("second", "third") if cfg.get(k_)]
+        for ex in extra:
+            phases.append((ex["iterations"], tm(list(ex["goal"]))))
         self.total_iters = 0
         self._log_mark = 0
         self._tree = [self.origin6]
@@ -374,7 +375,7 @@ class RRTRun:
             self.goal = goal
             pl.iterations = n_it
             if ph:
-                rep = cfg["second"].get("replace_box")
+                rep = extra[ph - 1].get("replace_box")
                 if rep and cfg["mode"] == "builtin" and pl.obstructions:
                     # a moved obstacle: same list object, same length
                     pl.obstructions.pop()
@@ -462,6 +463,12 @@ class RRTRun:
             if p in bypos:
                 raise Violation("T5", "two tree nodes at the same pose %r (a sample at distance 0 < minimum was accepted)" % (p,), {})
             bypos[p] = n
+        # the index must enumerate exactly what was inserted into it (recorded at place(), independently of getAll())
+        placed = [self.origin6] + [e[1] for e in self.log.events if e[0] == "place"]
+        if sorted(placed) != sorted(pos):
+            gone = [p_ for p_ in placed if p_ not in bypos]
+            raise Violation("T8", "the index enumerates %d nodes but %d were inserted; e.g. inserted and not enumerated: %r" % (
+                len(pos), len(placed), gone[:1]), {})
         # T1 root
         roots = [p for n, p in zip(nodes, pos) if n.getParent() is None]
         if len(roots) != 1 or roots[0] != self.origin6:
@@ -814,6 +821,9 @@ def gen_trace(seed):
         # the same planner asked again: another goal, usually a much smaller budget (coarse run, then a short refinement)
         cfg["second"] = {"iterations": pick_weighted(r, [(1, 1.0), (2, 2.0), (3, 2.0), (r.randint(4, 12), 2.0), (r.randint(13, 60), 1.0)]),
                          "goal": [round(r.uniform(-B, B), 3) for _ in range(3)] + [round(r.uniform(-rot, rot), 3) if rot else 0.0 for _ in range(3)]}
+    if cfg.get("second") and r.random() < 0.3:
+        cfg["third"] = {"iterations": r.randint(1, 6),
+                        "goal": [round(r.uniform(-B, B), 3) for _ in range(3)] + [round(r.uniform(-rot, rot), 3) if rot else 0.0 for _ in range(3)]}
     if cfg.get("second") and mode == "builtin" and cfg.get("boxes") and r.random() < 0.5:
         nb = _rand_box(r, B, cfg["origin"], B / 3)
         if nb:
